@@ -29,6 +29,7 @@ import (
 	parser "github.com/foxcpp/maddy/framework/cfgparser"
 	"github.com/foxcpp/maddy/framework/log"
 	"github.com/foxcpp/maddy/framework/module"
+	"github.com/foxcpp/maddy/internal/limits"
 	"github.com/foxcpp/maddy/internal/target/remote"
 	tsmtp "github.com/foxcpp/maddy/internal/target/smtp"
 	"github.com/foxcpp/maddy/internal/verif/peers"
@@ -223,6 +224,7 @@ func c01rRun(scratch string, c c01rCase) (res c01rResult) {
 	pw := peers.NewWorld(c01rPKI)
 	defer pw.Close()
 	var inner module.DeliveryTarget
+	var lim *limits.Group
 	var closers []func()
 	defer func() {
 		for _, f := range closers {
@@ -243,6 +245,20 @@ func c01rRun(scratch string, c c01rCase) (res c01rResult) {
 		rt := remote.VerifNewTarget(pw.Dial, zones, c01rPKI.Pool)
 		closers = append(closers, func() { rt.Close() })
 		inner = rt
+		if c01rLimits {
+			mod, err := limits.New("limits", "c11r", nil, nil)
+			if err != nil {
+				return c01rResult{fp: "HARNESS:limits", detail: err.Error()}
+			}
+			lim = mod.(*limits.Group)
+			if err := lim.Init(config.NewMap(map[string]interface{}{}, config.Node{Children: []config.Node{
+				{Name: "all", Args: []string{"concurrency", "2"}},
+				{Name: "destination", Args: []string{"concurrency", "1"}},
+			}})); err != nil {
+				return c01rResult{fp: "HARNESS:limits-init", detail: err.Error()}
+			}
+			remote.VerifSetLimits(rt, lim)
+		}
 	case "smtp", "lmtp":
 		sock := filepath.Join(dir, "next.sock")
 		stop, err := pw.AddUnix(w.script("mx.next.example", c.Cfg.Kind == "lmtp"), sock)
@@ -349,6 +365,19 @@ func c01rRun(scratch string, c c01rCase) (res c01rResult) {
 	}
 	if len(bounce.viol) > 0 {
 		return fail("report-typestate", "%s", strings.Join(bounce.viol, "; "))
+	}
+	if lim != nil {
+		// C11: the queue is closed, no delivery is in flight: every permit of the
+		// remote target's limits is back (counters read directly, no waiting)
+		all, dest := lim.VerifHeldC01()
+		if all != 0 {
+			return fail("permit-not-returned:all", "after the last attempt %d permit(s) of scope all are still held", all)
+		}
+		for k, n := range dest {
+			if n != 0 {
+				return fail("permit-not-returned:destination", "after the last attempt %d permit(s) of destination %q are still held", n, k)
+			}
+		}
 	}
 	// ---- server-side facts per attempt -----------------------------------------------------------
 	// delivered[k][r]: the server completed a transaction of attempt k for r
@@ -651,6 +680,9 @@ func c01rRun(scratch string, c c01rCase) (res c01rResult) {
 // answers scripted by the C01 part; the C16 part adds 552
 var c01rActs = []string{"4", "5", "drop", "421", "450ne", "554ne"}
 
+// c01rLimits: the remote target gets a real limits group (C11 part)
+var c01rLimits bool
+
 // c01rCheckReports: also judge the content of the failure reports (C16 part)
 var c01rCheckReports bool
 
@@ -924,5 +956,88 @@ func TestVerifC16Hop(t *testing.T) {
 			}
 			rec(map[string]string{}, "")
 		}
+	}
+}
+
+
+// TestVerifC11Remote (C11, part "remote"): the remote target's own use of the
+// limits (message permit in Start, destination permit per MX connection) in the
+// realhop world: every permit is back after every fault plan.
+func TestVerifC11Remote(t *testing.T) {
+	r := vx.Start("C11", "remote")
+	defer r.Finish()
+	scratch := os.Getenv("VERIF_SCRATCH")
+	if scratch == "" {
+		scratch = os.TempDir()
+	}
+	scratch = filepath.Join(scratch, fmt.Sprintf("c11r-%d", r.Shard))
+	os.MkdirAll(scratch, 0o755)
+	defer os.RemoveAll(scratch)
+	c01rLimits = true
+	r.Rule("the real queue in front of the real target.remote with a real limits group (all: concurrency 2, destination: concurrency 1) and a scripted next hop answering ok / 451 / 421 / 550 / replies without enhanced code or dropping the connection at greeting, MAIL, each RCPT, DATA and QUIT, up to 2 faults per plan enumerated on demand, 1-2 recipients in 1-2 domains, max_tries 2; oracle: when the message has reached its terminal state no permit of any scope is held (counters read directly), and the C01 ledger holds. Non-trivial: plans with a fault")
+	if rp := r.Replay(); rp != nil {
+		var c c01rCase
+		if json.Unmarshal(rp, &c) != nil || c.Cfg.Kind == "" {
+			return
+		}
+		res := c01rRun(scratch, c)
+		r.Eval()
+		if res.fp != "" {
+			r.Violation(strings.Replace(res.fp, "C01:real:", "C11:remote:", 1), res.detail, c)
+		}
+		return
+	}
+	if r.Replaying() {
+		return
+	}
+	idx := 0
+	for _, rs := range [][]string{{"a@d1.example"}, {"a@d1.example", "b@d1.example"}, {"a@d1.example", "b@d2.example"}} {
+		cfg := c01rCfg{Kind: "remote", Rcpts: rs, MaxTries: 2, From: "sender@example.com"}
+		var rec func(plan map[string]string, last string)
+		rec = func(plan map[string]string, last string) {
+			c := c01rCase{Cfg: cfg, Plan: plan}
+			res := c01rRun(scratch, c)
+			if res.quietHang {
+				r.Cap("a run went quiet: " + vx.JSON(c))
+				return
+			}
+			r.Eval()
+			if strings.HasPrefix(res.fp, "HARNESS:") {
+				r.HarnessError(res.fp + " " + res.detail)
+				return
+			}
+			if len(plan) > 0 {
+				r.Nontrivial(vx.JSON(c))
+			}
+			if res.fp != "" {
+				r.Violation(strings.Replace(res.fp, "C01:real:", "C11:remote:", 1), "case "+vx.JSON(c)+"\n"+res.detail, c)
+				return
+			}
+			r.Outcome(res.outcome)
+			if len(plan) >= 2 {
+				return
+			}
+			for _, k := range res.demanded {
+				if k <= last {
+					continue
+				}
+				for _, a := range c01rActs {
+					if !c01rAllowed(k, a) {
+						continue
+					}
+					idx++
+					if len(plan) == 0 && !r.Mine(idx) {
+						continue
+					}
+					np := map[string]string{}
+					for x, y := range plan {
+						np[x] = y
+					}
+					np[k] = a
+					rec(np, k)
+				}
+			}
+		}
+		rec(map[string]string{}, "")
 	}
 }
